@@ -436,7 +436,13 @@ func (loc *Location) WorkWalk(ctx *Context, w *FindRules, steps int) *Condition 
 				for _, era := range erc.Children {
 					go func(era *ExecRuleAction) {
 						if era.Disposition != Complete || c.step() {
-							era.Do(ctx, loc)
+							// Each concurrent action has a context of
+							// its own: a context carries state for the
+							// request that uses it (the hook privilege
+							// that lets a state hook skip the state's
+							// lock, the current location), which one
+							// action must not see of another.
+							era.Do(ctx.SubContext(), loc)
 							if era.Disposition == Complete {
 								vm.Lock()
 								w.Values = append(w.Values, era.Value)
